@@ -339,6 +339,32 @@ def sync_faults(out, rng):
                     out['violations'].append({'kind': 'monitor', 'signature': 'c17:%s:startup-sync:%s' % (kind, 'error' if err else 'tables-differ'),
                                               'detail': 'statement %d %s: %s; traits %s classes %s' % (k, ev, err, got_rows[0], len(got_rows[1])),
                                               'replay': {'type': 'sync-fault', 'variant': variant, 'fault': kind, 'statement': k}})
+            # any other database fault: the start-up fails cleanly, and the NEXT start-up in the same interpreter (the
+            # synchronised flags are module globals and are not reset) completes the synchronisation
+            _APP.restore(snap)
+            trait._TRAITS_SYNCED = False
+            resource_class._RESOURCE_CLASSES_SYNCED = False
+            _INJ.reset((k, 'dberror'))
+            err = None
+            try:
+                deploy.update_database(_APP.conf)
+            except Exception as e:
+                err = repr(e)
+            _INJ.armed = None
+            err2 = None
+            try:
+                deploy.update_database(_APP.conf)
+            except Exception as e:
+                err2 = repr(e)
+            got_rows = (_APP.sql('select count(*) from traits')[0][0], sorted(_APP.sql('select id, name from resource_classes')))
+            out['points'] += 1
+            ok = 'sync-%s:dberror-then-restart:%s' % (variant, 'ok' if got_rows == want_rows and not err2 else 'differs')
+            out['outcomes'][ok] = out['outcomes'].get(ok, 0) + 1
+            if got_rows != want_rows or err2:
+                out['violations'].append({'kind': 'monitor', 'signature': 'c17:dberror:startup-sync:next-start-%s' % ('error' if err2 else 'incomplete'),
+                                          'detail': 'statement %d %s failed (%s); the next start-up: %s; traits %s classes %s'
+                                          % (k, ev, err, err2, got_rows[0], len(got_rows[1])),
+                                          'replay': {'type': 'sync-fault', 'variant': variant, 'fault': 'dberror-then-restart', 'statement': k}})
     _APP.reset()
     trait._TRAITS_SYNCED = True
     resource_class._RESOURCE_CLASSES_SYNCED = True
